@@ -40,6 +40,9 @@ fn mac_digit(acc: &mut [BigDigit], b: &[BigDigit], c: BigDigit) {
         return;
     }
 
+    #[cfg(num_bigint_verif)]
+    crate::verif::work(b.len());
+
     let mut carry = 0;
     let (a_lo, a_hi) = acc.split_at_mut(b.len());
 
@@ -100,6 +103,8 @@ fn mac3(mut acc: &mut [BigDigit], mut b: &[BigDigit], mut c: &[BigDigit]) {
 
     if x.len() <= 32 {
         // Long multiplication:
+        #[cfg(num_bigint_verif)]
+        crate::verif::hit(crate::verif::MUL_SCHOOL);
         for (i, xi) in x.iter().enumerate() {
             mac_digit(&mut acc[i..], y, *xi);
         }
@@ -157,6 +162,8 @@ fn mac3(mut acc: &mut [BigDigit], mut b: &[BigDigit], mut c: &[BigDigit]) {
         //            = ((z1 - z0) * NBASE ^ m2) + z0
         //            = (x * high2) * NBASE ^ m2 + z0
         let m2 = y.len() / 2;
+        #[cfg(num_bigint_verif)]
+        crate::verif::hit(crate::verif::MUL_HALF);
         let (low2, high2) = y.split_at(m2);
 
         // (x * high2) * NBASE ^ m2 + z0
@@ -227,6 +234,8 @@ fn mac3(mut acc: &mut [BigDigit], mut b: &[BigDigit], mut c: &[BigDigit]) {
         // When x is smaller than y, it's significantly faster to pick b such that x is split in
         // half, not y:
         let b = x.len() / 2;
+        #[cfg(num_bigint_verif)]
+        crate::verif::hit(crate::verif::MUL_KARA);
         let (x0, x1) = x.split_at(b);
         let (y0, y1) = y.split_at(b);
 
@@ -263,6 +272,8 @@ fn mac3(mut acc: &mut [BigDigit], mut b: &[BigDigit], mut c: &[BigDigit]) {
         match j0_sign * j1_sign {
             Plus => {
                 p.data.truncate(0);
+                #[cfg(num_bigint_verif)]
+                crate::verif::hit(crate::verif::MUL_KARA_PLUS);
                 p.data.resize(len, 0);
 
                 mac3(&mut p.data, &j0.data, &j1.data);
@@ -272,6 +283,8 @@ fn mac3(mut acc: &mut [BigDigit], mut b: &[BigDigit], mut c: &[BigDigit]) {
             }
             Minus => {
                 mac3(&mut acc[b..], &j0.data, &j1.data);
+                #[cfg(num_bigint_verif)]
+                crate::verif::hit(crate::verif::MUL_KARA_MINUS);
             }
             NoSign => (),
         }
@@ -285,6 +298,8 @@ fn mac3(mut acc: &mut [BigDigit], mut b: &[BigDigit], mut c: &[BigDigit]) {
         // polynomials of a certain degree and determine the coefficients/digits
         // of the product of the two via interpolation of the polynomial product.
         let i = y.len() / 3 + 1;
+        #[cfg(num_bigint_verif)]
+        crate::verif::hit(crate::verif::MUL_TOOM3);
 
         let x0_len = Ord::min(x.len(), i);
         let x1_len = Ord::min(x.len() - x0_len, i);
@@ -623,4 +638,13 @@ fn test_sub_sign() {
 
     assert_eq!(sub_sign_i(&a.data, &b.data), &a_i - &b_i);
     assert_eq!(sub_sign_i(&b.data, &a.data), &b_i - &a_i);
+}
+
+#[cfg(num_bigint_verif)]
+pub(super) fn verif_mac3(acc: &mut [BigDigit], b: &[BigDigit], c: &[BigDigit]) {
+    mac3(acc, b, c)
+}
+#[cfg(num_bigint_verif)]
+pub(super) fn verif_sub_sign(a: &[BigDigit], b: &[BigDigit]) -> (Sign, BigUint) {
+    sub_sign(a, b)
 }
